@@ -237,7 +237,8 @@ def _map_to_station_ids(
     :return: the price data organized by StationId
     """
     updated = {}  # refactor using immutables.Map()?
-    for k in this_update.keys():
+    # keys are visited in a fixed order: a station named by several keys gets the entry of the last one
+    for k in sorted(this_update.keys()):
         if k in sim.stations:
             # k is a StationId; leave as is
             updated.update({k: this_update[k]})
